@@ -9,6 +9,7 @@ import (
 	"encoding/json"
 	"fmt"
 	"go/ast"
+	"go/types"
 	"os"
 	"path/filepath"
 	"regexp"
@@ -36,12 +37,25 @@ type Program struct {
 	Inputs []string // positional arguments (relative to the program dir)
 	Cwd    string   // relative cwd inside the program dir ("" = program dir)
 
+	// SubNames: further Go packages of the same generator run (sub-directories of the program's package, imported
+	// packages first). Args may use the placeholders {{PKG}} (import path of the program's package) and {{OUT}} (its
+	// output directory) to map schema ids to them: --schema-package=ID={{PKG}}/lib --schema-output=ID={{OUT}}/lib/gen.go
+	SubNames []string
+	Subs     []Sub // filled by Generate / Check
+
 	// filled by Generate
 	Dir    string
 	Proc   stage.ProcResult
 	Src    []byte
 	Report *gocheck.Report
 	Meta   any // owner-defined
+}
+
+// Sub is one further package a program's generator run emitted.
+type Sub struct {
+	Name   string
+	Src    []byte
+	Report *gocheck.Report
 }
 
 // Env is shared state for a check run.
@@ -130,16 +144,42 @@ func (e *Env) Generate(p *Program) {
 	}
 	_ = os.MkdirAll(filepath.Join(p.Dir, p.Cwd), 0o755)
 	outFile := filepath.Join(p.Dir, "out", "gen.go")
-	args := append([]string{"-p", p.ID, "-o", outFile}, p.Args...)
+	args := []string{"-p", p.ID, "-o", outFile}
+	for _, a := range p.Args {
+		a = strings.ReplaceAll(a, "{{PKG}}", "batch/"+p.ID)
+		args = append(args, strings.ReplaceAll(a, "{{OUT}}", filepath.Join(p.Dir, "out")))
+	}
 	args = append(args, p.Inputs...)
 	p.Proc = stage.Run(stage.Proc{Path: e.GJS, Args: args, Dir: filepath.Join(p.Dir, p.Cwd)})
 	p.Src, _ = os.ReadFile(outFile)
+	p.Subs = nil
+	for _, n := range p.SubNames {
+		src, _ := os.ReadFile(filepath.Join(p.Dir, "out", n, "gen.go"))
+		p.Subs = append(p.Subs, Sub{Name: n, Src: src})
+	}
 }
 
 // Check runs the source oracles on the emitted file.
 func (e *Env) Check(p *Program) {
 	if p.Proc.Exit == 0 && p.Src != nil {
-		p.Report = e.Exports.CheckSource("gen.go", p.Src, nil)
+		var extra map[string]*types.Package
+		if len(p.Subs) > 0 {
+			// imported packages first; a second pass settles any other listing order
+			extra = map[string]*types.Package{}
+			for pass := 0; pass < 2; pass++ {
+				for k := range p.Subs {
+					sb := &p.Subs[k]
+					if sb.Src == nil || (sb.Report != nil && sb.Report.OK()) {
+						continue
+					}
+					sb.Report = e.Exports.CheckSource(sb.Name+"/gen.go", sb.Src, extra)
+					if sb.Report.ParseErr == "" && len(sb.Report.TypeErrs) == 0 && sb.Report.Pkg != nil {
+						extra["batch/"+p.ID+"/"+sb.Name] = sb.Report.Pkg
+					}
+				}
+			}
+		}
+		p.Report = e.Exports.CheckSource("gen.go", p.Src, extra)
 	}
 }
 
@@ -153,6 +193,11 @@ func (e *Env) GenerateAll(ps []*Program) {
 
 // Usable reports whether the program produced compilable output.
 func (p *Program) Usable() bool {
+	for _, sb := range p.Subs {
+		if sb.Src == nil || sb.Report == nil || sb.Report.ParseErr != "" || len(sb.Report.TypeErrs) > 0 {
+			return false
+		}
+	}
 	return p.Proc.Exit == 0 && p.Src != nil && p.Report != nil && p.Report.ParseErr == "" && len(p.Report.TypeErrs) == 0
 }
 
@@ -213,7 +258,7 @@ func (e *Env) BuildDriver(ps []*Program, race bool) (*Driver, error) {
 		return nil, err
 	}
 	d := &Driver{Dir: dir, Excluded: map[string]string{}, Race: race}
-	type ent struct{ id, typ string }
+	type ent struct{ id, typ, sub string }
 	var ents []ent
 	included := map[string]*Program{}
 	for _, p := range ps {
@@ -224,6 +269,12 @@ func (e *Env) BuildDriver(ps []*Program, race bool) (*Driver, error) {
 		_ = os.MkdirAll(pd, 0o755)
 		if err := os.WriteFile(filepath.Join(pd, "gen.go"), p.Src, 0o644); err != nil {
 			return nil, err
+		}
+		for _, sb := range p.Subs {
+			_ = os.MkdirAll(filepath.Join(pd, sb.Name), 0o755)
+			if err := os.WriteFile(filepath.Join(pd, sb.Name, "gen.go"), sb.Src, 0o644); err != nil {
+				return nil, err
+			}
 		}
 		included[p.ID] = p
 	}
@@ -238,7 +289,14 @@ func (e *Env) BuildDriver(ps []*Program, race bool) (*Driver, error) {
 		for _, id := range ids {
 			for _, tn := range gocheck.TypeNames(included[id].Report.File) {
 				if ast.IsExported(tn) {
-					ents = append(ents, ent{id, tn})
+					ents = append(ents, ent{id, tn, ""})
+				}
+			}
+			for _, sb := range included[id].Subs {
+				for _, tn := range gocheck.TypeNames(sb.Report.File) {
+					if ast.IsExported(tn) {
+						ents = append(ents, ent{id, tn, sb.Name})
+					}
 				}
 			}
 		}
@@ -246,9 +304,19 @@ func (e *Env) BuildDriver(ps []*Program, race bool) (*Driver, error) {
 		b.WriteString("package main\n\nimport (\n")
 		for _, id := range ids {
 			fmt.Fprintf(&b, "\t%q\n", "batch/"+id)
+			for _, sb := range included[id].Subs {
+				if hasExported(sb.Report.File) {
+					fmt.Fprintf(&b, "\t%s_%s %q\n", id, sb.Name, "batch/"+id+"/"+sb.Name)
+				}
+			}
 		}
 		b.WriteString(")\n\nvar registry = map[string]func() any{\n")
 		for _, en := range ents {
+			if en.sub != "" {
+				// a type of a further package of the run: key <program>.<package>/<Type>
+				fmt.Fprintf(&b, "\t%q: func() any { return new(%s_%s.%s) },\n", en.id+"."+en.sub+"/"+en.typ, en.id, en.sub, en.typ)
+				continue
+			}
 			fmt.Fprintf(&b, "\t%q: func() any { return new(%s.%s) },\n", en.id+"."+en.typ, en.id, en.typ)
 		}
 		b.WriteString("}\n")
@@ -261,7 +329,9 @@ func (e *Env) BuildDriver(ps []*Program, race bool) (*Driver, error) {
 		// packages without exported types would be unused imports: drop them
 		used := map[string]bool{}
 		for _, en := range ents {
-			used[en.id] = true
+			if en.sub == "" {
+				used[en.id] = true
+			}
 		}
 		changed := false
 		for _, id := range ids {
@@ -556,4 +626,13 @@ func (e *Env) CoverageReport() map[string]string {
 		}
 	}
 	return res
+}
+
+func hasExported(f *ast.File) bool {
+	for _, tn := range gocheck.TypeNames(f) {
+		if ast.IsExported(tn) {
+			return true
+		}
+	}
+	return false
 }
